@@ -105,6 +105,8 @@ type Run struct {
 	pools map[*Value][]Value
 	kr    map[*Term]krInfo
 	krBound map[*Term]int64 // upper bounds of the non-negative components behind vf.Dur
+	durOf   map[*Term]durInfo // vf.Dur terms -> components
+	fpSecs  map[*Term]durInfo // float64 terms built by Duration.Seconds() from a vf.Dur term
 	allSchedules bool
 	schedForks int
 	mapOrderAll bool
@@ -138,6 +140,39 @@ func (m *Machine) krLemma(maxS int64) bool {
 	return krDone[key]
 }
 
+type durInfo struct {
+	sec, sub *Term // whole seconds, nanoseconds below one second
+	maxS     int64
+}
+
+var fpSecDone = map[int64]bool{}
+
+// fpSecondsLemma discharges once per bound, with FloatingPoint terms on the one-shot solvers, the side
+// lemma behind the rewrites of uint(d.Seconds()) and d.Seconds() == 0 for d = s*10^9 + sub,
+// 0 <= s <= maxS, 0 <= sub < 10^9: with f = float64(s) + float64(sub)/1e9 (round to nearest even, as
+// the Go code computes it), trunc(f) = s, and f == 0 iff s = 0 and sub = 0.
+func (m *Machine) fpSecondsLemma(maxS int64) bool {
+	krMu.Lock()
+	defer krMu.Unlock()
+	if v, ok := fpSecDone[maxS]; ok {
+		return v
+	}
+	script := fmt.Sprintf(`(declare-const s (_ BitVec 64))
+(declare-const sub (_ BitVec 64))
+(assert (and (bvsge s #x0000000000000000) (bvsle s #x%016x)))
+(assert (and (bvsge sub #x0000000000000000) (bvslt sub #x000000003b9aca00)))
+(define-fun f () (_ FloatingPoint 11 53) (fp.add RNE ((_ to_fp 11 53) RNE s) (fp.div RNE ((_ to_fp 11 53) RNE sub) ((_ to_fp 11 53) RNE 1000000000.0))))
+(assert (not (and (= ((_ fp.to_sbv 64) RTZ f) s) (= (fp.eq f ((_ to_fp 11 53) RNE 0.0)) (and (= s #x0000000000000000) (= sub #x0000000000000000))))))
+(check-sat)
+`, maxS)
+	res, _ := runScript("cvc5", []string{"--tlimit=60000"}, "(set-logic ALL)\n"+script, nil)
+	if res != "unsat" {
+		res, _ = runScript("z3", []string{"-T:60"}, script, nil)
+	}
+	fpSecDone[maxS] = res == "unsat"
+	return fpSecDone[maxS]
+}
+
 type pathEnd struct{ why string }
 
 type abortRun struct{}
@@ -148,7 +183,7 @@ func (m *Machine) newRun(prefix []int64) *Run {
 		reached: map[string]bool{}, assertIDs: map[string]int{},
 		locks: map[*Value]*lockState{}, conds: map[*Value]*condState{}, wgs: map[*Value]*wgState{}, onces: map[*Value]*onceState{},
 		strIDs: map[string]uint64{}, strByID: map[uint64]string{}, opaqueG: map[string]*Value{},
-		funcsHit: map[string]bool{}, pools: map[*Value][]Value{}, kr: map[*Term]krInfo{}, krBound: map[*Term]int64{},
+		funcsHit: map[string]bool{}, pools: map[*Value][]Value{}, kr: map[*Term]krInfo{}, krBound: map[*Term]int64{}, durOf: map[*Term]durInfo{}, fpSecs: map[*Term]durInfo{},
 	}
 	r.nowT = mkBV(64, 1_000_000_000_000) // virtual clock, ns
 	r.mapOrderAll = m.opts.AllMapOrders
